@@ -43,7 +43,7 @@ class AggregateSpectroscopy(AggregateBase):
         #
         
         pop_tol = ptol
-        dip_tol = numpy.sqrt(self.D2_max)*dtol
+        dip_tol = self.D2_max*dtol
         
         # Check if the ptype is a tuple
         if not isinstance(ptype, (tuple,list)):
@@ -716,7 +716,7 @@ class AggregateSpectroscopy(AggregateBase):
                 print("..done")
         
         pop_tol = ptol
-        dip_tol = numpy.sqrt(self.D2_max)*dtol
+        dip_tol = self.D2_max*dtol
         evf_tol = etol
         
         # Check if the ptype is a tuple
@@ -843,7 +843,7 @@ class AggregateSpectroscopy(AggregateBase):
                 print("..done")
         
         pop_tol = ptol
-        dip_tol = numpy.sqrt(self.D2_max)*dtol
+        dip_tol = self.D2_max*dtol
         evf_tol = etol
                         
         if eUt is None:
